@@ -222,6 +222,13 @@ def axioms(ab, max_pairs=3000, max_triples=600):
         for b, vb in E:
             ax.append(z3.Implies(A(b) == va, vb == x))
             ax.append(z3.Implies(x == vb, va == A(b)))
+    from .core import LOG2 as _LOG2
+    for a, va in LG[:12]:
+        x = A(a)
+        for k in range(-3, 7):  # log x >= k log 2  <=>  x >= 2^k   (monotonicity against the constant LOG2)
+            p2 = z3.RealVal(2) ** k if k >= 0 else 1 / (z3.RealVal(2) ** (-k))
+            p2 = z3.simplify(p2)
+            ax.append(z3.Implies(x > 0, (x >= p2) == (va >= k * _LOG2)))
     for (a, va), (b, vb) in itertools.islice(itertools.combinations(LG, 2), max_pairs):
         xa, xb = A(a), A(b)
         ax.append(z3.Implies(z3.And(xa > 0, xb > 0, xa < xb), va < vb))
